@@ -182,6 +182,15 @@ func (ex *Exec) evalSpec(env *Env, e Expr) *Value {
 		}
 		inner.depth = env.depth + 1
 		body := ex.evalSpecBool(inner, e.Body)
+		// re-base: forall k. P(a[off+k]) becomes forall j. P(a[j]) so that the
+		// array read itself is the instantiation pattern
+		for vi, v := range vars {
+			if off := rebaseOffset(body, v); off != nil {
+				nv := tb.BVar(v.Name+"_a", v.Sort)
+				body = tb.Subst(body, map[*Term]*Term{v: tb.Sub(nv, off)})
+				vars[vi] = nv
+			}
+		}
 		if e.All {
 			return ex.boolV(tb.Forall(vars, body))
 		}
@@ -959,4 +968,58 @@ func bvType(name string) types.Type {
 		return types.Typ[types.Uint64]
 	}
 	return types.Typ[types.Int64]
+}
+
+// rebaseOffset finds X when every array read indexed through bound variable v
+// has the index form (+ X v) with one common, closed, non-literal X.
+func rebaseOffset(body, v *Term) *Term {
+	var off *Term
+	ok := true
+	seen := map[int]bool{}
+	var walk func(t *Term)
+	walk = func(t *Term) {
+		if seen[t.id] || !ok {
+			return
+		}
+		seen[t.id] = true
+		if t.Op == "select" {
+			idx := t.Args[1]
+			if mentions(idx, v) {
+				if idx.Op == "+" && len(idx.Args) == 2 && idx.Args[1] == v && !idx.Args[0].bound {
+					if off == nil {
+						off = idx.Args[0]
+					} else if off != idx.Args[0] {
+						ok = false
+					}
+				} else if idx.Op == "+" && len(idx.Args) == 2 && idx.Args[0] == v && !idx.Args[1].bound && idx.Args[1].ival == nil {
+					if off == nil {
+						off = idx.Args[1]
+					} else if off != idx.Args[1] {
+						ok = false
+					}
+				} else if idx != v {
+					ok = false
+				} else {
+					ok = false // already absolute somewhere: leave alone
+				}
+			}
+		}
+		for _, a := range t.Args {
+			walk(a)
+		}
+	}
+	walk(body)
+	if !ok || off == nil || off.ival != nil {
+		return nil
+	}
+	return off
+}
+
+func mentions(t, v *Term) bool {
+	for _, f := range t.fv {
+		if f == v {
+			return true
+		}
+	}
+	return false
 }
